@@ -309,7 +309,8 @@ def _units(shard):
     K, f = plan_K()
     acc = Acc(shard)
     U = inputs(2, seed)
-    mixes = [np.diag([1.0, 3e4]), np.diag([3e-5, 1.0]), np.array([[1.0, 1.0], [1.0, 1.0 + 1e-4]]), np.array([[1e4, 1.0], [0.0, 1.0]])]
+    mixes = [np.diag([1.0, 3e4]), np.diag([3e-5, 1.0]), np.array([[1.0, 1.0], [1.0, 1.0 + 1e-4]]), np.array([[1e4, 1.0], [0.0, 1.0]]),
+             1e-9 * np.eye(2), 1e9 * np.eye(2), np.diag([1e-9, 2e-9])]
     for kind in ("exact", "plus"):
         y = 2.0 * U[0] - 0.5 * U[1] + (0.7 * records.get("chirp", N, seed) if kind == "plus" else 0.0)
         s00 = S00(y)
